@@ -702,6 +702,12 @@ const FONTS: &[&str] = &[
     "opentype/TerminusTTF-4.47.0.ttf",
 ];
 
+const CFF_FONTS: &[&str] = &[
+    "opentype/Klei.otf",
+    "opentype/SourceCodePro-Regular.otf",
+    "noto/NotoSansJP-Regular.otf",
+];
+
 fn font_bytes(name: &str) -> Vec<u8> {
     let repo = std::env::var("VERIF_REPO").unwrap_or_else(|_| "/repo".to_string());
     let (path, wrap) = match name.strip_suffix("+w") {
@@ -787,13 +793,407 @@ fn run_f(parts: &[&str]) -> String {
     }
 }
 
+
+// ------------------------------------------------------------------------------------------------
+// CFF::subset on the CFF table of a fixture font, against the abstract model
+//   c|FONT|IDS|CONVERT
+//     => ok|olds|SRC|OUT    or  err:E
+//   SRC = K;NP ! glyph views g:cs:ug:ul:fd:sid (ug, ul dot lists; fd/sid -1 when undefined) ! G index ! local indexes
+//   OUT = K ! cs hashes ! fd per new glyph ! charset id per new glyph ! G index ! local indexes
+//   an index is `len;i=h.i=h...` listing the entries the judge needs (SRC: used ones, OUT: non-empty ones);
+//   h = 0 for an empty entry, else a 47-bit FNV hash + 1; local indexes are `fd:index` joined by `/`, `none` = absent
+
+fn bhash(b: &[u8]) -> u64 {
+    if b.is_empty() {
+        return 0;
+    }
+    let mut h: u64 = 0xcbf29ce484222325;
+    for x in b {
+        h = (h ^ *x as u64).wrapping_mul(0x100000001b3);
+    }
+    (h & 0x7fff_ffff_ffff) + 1
+}
+
+fn index_view(ix: &allsorts::cff::MaybeOwnedIndex<'_>, want: Option<&std::collections::BTreeSet<usize>>) -> String {
+    let mut ents = vec![];
+    for i in 0..ix.len() {
+        let b = ix.read_object(i).unwrap_or(&[]);
+        let keep = match want {
+            Some(w) => w.contains(&i),
+            None => !b.is_empty(),
+        };
+        if keep {
+            ents.push(format!("{}={}", i, bhash(b)));
+        }
+    }
+    format!("{};{}", ix.len(), ents.join("."))
+}
+
+fn locals_view(font: &allsorts::cff::Font<'_>, want: Option<&BTreeMap<usize, std::collections::BTreeSet<usize>>>) -> String {
+    use allsorts::cff::CFFVariant;
+    let one = |fd: usize, ix: &Option<allsorts::cff::MaybeOwnedIndex<'_>>| -> String {
+        match ix {
+            None => format!("{}:none", fd),
+            Some(ix) => {
+                let empty = std::collections::BTreeSet::new();
+                let w = want.map(|w| w.get(&fd).unwrap_or(&empty));
+                format!("{}:{}", fd, index_view(ix, w))
+            }
+        }
+    };
+    match &font.data {
+        CFFVariant::Type1(t) => one(0, &t.local_subr_index),
+        CFFVariant::CID(c) => {
+            let v: Vec<String> = c.local_subr_indices.iter().enumerate().map(|(fd, ix)| one(fd, ix)).collect();
+            if v.is_empty() { "-".to_string() } else { v.join("/") }
+        }
+    }
+}
+
+fn dots(v: &[usize]) -> String {
+    if v.is_empty() { "-".to_string() } else { v.iter().map(|x| x.to_string()).collect::<Vec<_>>().join(".") }
+}
+
+fn run_c(parts: &[&str]) -> String {
+    use allsorts::cff::CFFVariant;
+    use std::collections::BTreeSet;
+    let data = font_bytes(parts[1]);
+    if data.is_empty() {
+        return "nofont".to_string();
+    }
+    let ids: Vec<u16> = ints(parts[2]);
+    let convert = parts[3] == "1";
+    let fd = match ReadScope::new(&data).read::<FontData<'_>>() {
+        Ok(f) => f,
+        Err(e) => return format!("err:container-{}", perr(&e)),
+    };
+    let p = match fd.table_provider(0) {
+        Ok(p) => p,
+        Err(e) => return format!("err:container-{}", rwerr(&e)),
+    };
+    let cff_data = match p.read_table_data(tag::CFF) {
+        Ok(d) => d.into_owned(),
+        Err(e) => return format!("err:src-{}", perr(&e)),
+    };
+    let cff = match ReadScope::new(&cff_data).read::<CFF<'_>>() {
+        Ok(c) => c,
+        Err(e) => return format!("err:src-{}", perr(&e)),
+    };
+    let font = match cff.fonts.first() {
+        Some(f) => f,
+        None => return "err:src-nofont".to_string(),
+    };
+    // source view
+    let is_cid = matches!(font.data, CFFVariant::CID(_));
+    let np = match &font.data {
+        CFFVariant::CID(c) => c.private_dicts.len(),
+        CFFVariant::Type1(_) => 1,
+    };
+    let mut gviews = vec![];
+    let mut used_g: BTreeSet<usize> = BTreeSet::new();
+    let mut used_l: BTreeMap<usize, BTreeSet<usize>> = BTreeMap::new();
+    for &g in ids.iter() {
+        let cs = font.char_strings_index.read_object(usize::from(g)).map(bhash);
+        let (ug, ul, uerr) = match allsorts::verif::cff_used_subrs(&cff, g) {
+            Ok((a, b)) => (a, b, false),
+            Err(_) => (vec![], vec![], true),
+        };
+        let fdi: i32 = match &font.data {
+            CFFVariant::CID(c) => c.fd_select.font_dict_index(g).map_or(-1, i32::from),
+            CFFVariant::Type1(_) => 0,
+        };
+        let sid: i32 = font.charset.id_for_glyph(g).map_or(-1, i32::from);
+        used_g.extend(ug.iter().copied());
+        if fdi >= 0 {
+            used_l.entry(fdi as usize).or_default().extend(ul.iter().copied());
+        }
+        gviews.push(format!(
+            "{}:{}:{}:{}:{}:{}",
+            g,
+            cs.map_or("-1".to_string(), |h| h.to_string()),
+            if uerr { "x".to_string() } else { dots(&ug) },
+            dots(&ul),
+            fdi,
+            sid
+        ));
+    }
+    let src = format!(
+        "{};{}!{}!{}!{}",
+        if is_cid { "C" } else { "T" },
+        np,
+        if gviews.is_empty() { "-".to_string() } else { gviews.join(",") },
+        index_view(&cff.global_subr_index, Some(&used_g)),
+        locals_view(font, Some(&used_l))
+    );
+    let (out, olds) = match allsorts::verif::cff_subset(&cff, &ids, convert) {
+        Ok(r) => r,
+        Err(e) => return format!("err:{}|{}", suberr(&e), src),
+    };
+    let ofont = &out.fonts[0];
+    let n = ofont.char_strings_index.len();
+    let o_cid = matches!(ofont.data, CFFVariant::CID(_));
+    let cs: Vec<String> = (0..n).map(|i| bhash(ofont.char_strings_index.read_object(i).unwrap_or(&[])).to_string()).collect();
+    let fds: Vec<String> = (0..n)
+        .map(|i| match &ofont.data {
+            CFFVariant::CID(c) => c.fd_select.font_dict_index(i as u16).map_or(-1, i32::from).to_string(),
+            CFFVariant::Type1(_) => "0".to_string(),
+        })
+        .collect();
+    let sids: Vec<String> = (0..n).map(|i| ofont.charset.id_for_glyph(i as u16).map_or(-1, i32::from).to_string()).collect();
+    let outv = format!(
+        "{}!{}!{}!{}!{}!{}",
+        if o_cid { "C" } else { "T" },
+        join(&cs),
+        join(&fds),
+        join(&sids),
+        index_view(&out.global_subr_index, None),
+        locals_view(ofont, None)
+    );
+    format!("ok|{}|{}|{}", join(&olds), src, outv)
+}
+
+// ------------------------------------------------------------------------------------------------
+// synthetic name-keyed CFF:  s|NG|NL|GLYPHS|GSUBRS|LSUBRS|IDS|CONVERT
+//   programs separated by spaces, tokens by '.':  mX,Y rmoveto | lX,Y rlineto | Gi callgsubr i | Li callsubr i |
+//   E endchar | R return | Sb,a  `0 0 b a endchar` (seac, standard-encoding codes) | wN push N
+//   NG / NL = size of the Global / Local Subr INDEX (padded with `return` subrs; selects the bias regime)
+//   charset: glyph 1 = A (SID 34), glyph 2 = acute (SID 125), glyph k>2 = SID 170 + k
+//   => ok|OUT|SRC   OUT = outline hash per new glyph (subset written with CFF::write and read back),
+//                   SRC = outline hash of the source glyph per requested id        | err:E | panic
+
+fn cs_num(v: &mut Vec<u8>, n: i32) {
+    v.push(28);
+    v.extend_from_slice(&(n as i16).to_be_bytes());
+}
+
+fn cs_bias(n: usize) -> i32 {
+    if n < 1240 {
+        107
+    } else if n < 33900 {
+        1131
+    } else {
+        32768
+    }
+}
+
+fn cs_program(src: &str, ng: usize, nl: usize) -> Vec<u8> {
+    let mut v = vec![];
+    for tok in src.split('.').filter(|t| !t.is_empty()) {
+        let (op, arg) = tok.split_at(1);
+        let nums: Vec<i32> = arg.split(',').filter_map(|x| x.parse().ok()).collect();
+        match op {
+            "m" => {
+                cs_num(&mut v, *nums.first().unwrap_or(&0));
+                cs_num(&mut v, *nums.get(1).unwrap_or(&0));
+                v.push(21);
+            }
+            "l" => {
+                cs_num(&mut v, *nums.first().unwrap_or(&0));
+                cs_num(&mut v, *nums.get(1).unwrap_or(&0));
+                v.push(5);
+            }
+            "G" => {
+                cs_num(&mut v, nums.first().unwrap_or(&0) - cs_bias(ng));
+                v.push(29);
+            }
+            "L" => {
+                cs_num(&mut v, nums.first().unwrap_or(&0) - cs_bias(nl));
+                v.push(10);
+            }
+            "E" => v.push(14),
+            "R" => v.push(11),
+            "S" => {
+                cs_num(&mut v, 0);
+                cs_num(&mut v, 0);
+                cs_num(&mut v, *nums.first().unwrap_or(&65));
+                cs_num(&mut v, *nums.get(1).unwrap_or(&194));
+                v.push(14);
+            }
+            "w" => cs_num(&mut v, *nums.first().unwrap_or(&0)),
+            _ => {}
+        }
+    }
+    v
+}
+
+fn cff_index(items: &[Vec<u8>]) -> Vec<u8> {
+    let mut v = vec![];
+    be16(&mut v, items.len() as u16);
+    if items.is_empty() {
+        return v;
+    }
+    v.push(4);
+    let mut off = 1u32;
+    be32(&mut v, off);
+    for it in items {
+        off += it.len() as u32;
+        be32(&mut v, off);
+    }
+    for it in items {
+        v.extend_from_slice(it);
+    }
+    v
+}
+
+fn dict_int(v: &mut Vec<u8>, n: i32) {
+    v.push(29);
+    v.extend_from_slice(&n.to_be_bytes());
+}
+
+fn synthetic_cff(ng: usize, nl: usize, glyphs: &[&str], gsubrs: &[&str], lsubrs: &[&str]) -> Vec<u8> {
+    let pad = |progs: &[&str], n: usize| -> Vec<Vec<u8>> {
+        let mut v: Vec<Vec<u8>> = progs.iter().map(|p| cs_program(p, ng, nl)).collect();
+        while v.len() < n {
+            v.push(vec![11]);
+        }
+        v
+    };
+    let gs = pad(gsubrs, ng);
+    let ls = pad(lsubrs, nl);
+    let cs: Vec<Vec<u8>> = glyphs.iter().map(|p| cs_program(p, gs.len(), ls.len())).collect();
+    let header = vec![1u8, 0, 4, 4];
+    let name = cff_index(&[b"T".to_vec()]);
+    let strings = cff_index(&[]);
+    let gsubr_ix = cff_index(&gs);
+    let topdict_len = 6 + 6 + 11;
+    let topdict_ix_len = 2 + 1 + 8 + topdict_len;
+    let charset_off = header.len() + name.len() + topdict_ix_len + strings.len() + gsubr_ix.len();
+    let mut charset = vec![0u8];
+    for k in 1..glyphs.len() {
+        let sid: u16 = match k {
+            1 => 34,
+            2 => 125,
+            _ => 170 + k as u16,
+        };
+        be16(&mut charset, sid);
+    }
+    let cs_off = charset_off + charset.len();
+    let cs_ix = cff_index(&cs);
+    let priv_off = cs_off + cs_ix.len();
+    let mut private = vec![];
+    if !ls.is_empty() {
+        dict_int(&mut private, 6);
+        private.push(19); // Subrs, offset relative to the Private DICT
+    }
+    let ls_ix = if ls.is_empty() { vec![] } else { cff_index(&ls) };
+    let mut top = vec![];
+    dict_int(&mut top, charset_off as i32);
+    top.push(15);
+    dict_int(&mut top, cs_off as i32);
+    top.push(17);
+    dict_int(&mut top, private.len() as i32);
+    dict_int(&mut top, priv_off as i32);
+    top.push(18);
+    let mut out = header;
+    out.extend_from_slice(&name);
+    out.extend_from_slice(&cff_index(&[top]));
+    out.extend_from_slice(&strings);
+    out.extend_from_slice(&gsubr_ix);
+    out.extend_from_slice(&charset);
+    out.extend_from_slice(&cs_ix);
+    out.extend_from_slice(&private);
+    out.extend_from_slice(&ls_ix);
+    out
+}
+
+fn progs(s: &str) -> Vec<&str> {
+    s.split(' ').filter(|x| !x.is_empty() && *x != "-").collect()
+}
+
+fn run_s(parts: &[&str]) -> String {
+    let ng: usize = parts[1].parse().unwrap_or(0);
+    let nl: usize = parts[2].parse().unwrap_or(0);
+    let ids: Vec<u16> = ints(parts[6]);
+    let convert = parts.get(7).map_or(false, |c| *c == "1");
+    let bytes = synthetic_cff(ng, nl, &progs(parts[3]), &progs(parts[4]), &progs(parts[5]));
+    let mut src = match ReadScope::new(&bytes).read::<CFF<'_>>() {
+        Ok(c) => c,
+        Err(e) => return format!("err:src-{}", perr(&e)),
+    };
+    let srcv: Vec<String> = ids.iter().map(|g| outline_hash(&mut src, *g)).collect();
+    let src2 = ReadScope::new(&bytes).read::<CFF<'_>>().unwrap();
+    let (out, _olds) = match allsorts::verif::cff_subset(&src2, &ids, convert) {
+        Ok(r) => r,
+        Err(e) => return format!("err:{}", suberr(&e)),
+    };
+    let mut w = WriteBuffer::new();
+    if let Err(e) = CFF::write(&mut w, &out) {
+        return format!("bad-output:write-{:?}", e);
+    }
+    let ob = w.into_inner();
+    let mut back = match ReadScope::new(&ob).read::<CFF<'_>>() {
+        Ok(c) => c,
+        Err(e) => return format!("bad-output:{}", perr(&e)),
+    };
+    let n = back.fonts.first().map_or(0, |f| f.char_strings_index.len());
+    let outv: Vec<String> = (0..n).map(|g| outline_hash(&mut back, g as u16)).collect();
+    format!("ok|{}|{}", join(&outv), join(&srcv))
+}
+
+fn gen_cff(rng: &mut Rng) -> String {
+    let nglyph = rng.range(3, 12) as usize;
+    let sizes = [0usize, 1, 3, 20, 1239, 1240, 1300];
+    let mut ng = *rng.pick(&sizes);
+    let mut nl = *rng.pick(&sizes);
+    if rng.chance(1, 30) {
+        ng = 33900;
+    }
+    let seg = |rng: &mut Rng| format!("l{},{}", rng.range(-40, 40), rng.range(-40, 40));
+    let nsub_g = ng.min(rng.range(0, 4) as usize);
+    let nsub_l = nl.min(rng.range(0, 4) as usize);
+    // subrs: drawing then return; may call a higher-numbered subr of the same kind or a global one
+    let sub = |rng: &mut Rng, i: usize, n: usize, kind: &str, ng_avail: usize| -> String {
+        let mut t = vec![seg(rng)];
+        if i + 1 < n && rng.chance(1, 3) {
+            t.push(format!("{}{}", kind, rng.range(i as i64 + 1, n as i64 - 1)));
+        } else if kind == "L" && ng_avail > 0 && rng.chance(1, 4) {
+            t.push(format!("G{}", rng.below(ng_avail as u64)));
+        }
+        t.push("R".to_string());
+        t.join(".")
+    };
+    let gs: Vec<String> = (0..nsub_g).map(|i| sub(rng, i, nsub_g, "G", 0)).collect();
+    let ls: Vec<String> = (0..nsub_l).map(|i| sub(rng, i, nsub_l, "L", nsub_g)).collect();
+    let high_g = ng > nsub_g && rng.chance(1, 3);
+    let glyphs: Vec<String> = (0..nglyph)
+        .map(|k| {
+            if k >= 3 && rng.chance(1, 12) {
+                return "w300.S65,194".to_string();
+            }
+            let mut t = vec![format!("m{},{}", 10 * k as i64 + rng.range(0, 5), rng.range(0, 50))];
+            for _ in 0..rng.range(1, 3) {
+                t.push(seg(rng));
+            }
+            if nsub_g > 0 && rng.chance(1, 2) {
+                t.push(format!("G{}", rng.below(nsub_g as u64)));
+            }
+            if nsub_l > 0 && rng.chance(1, 2) {
+                t.push(format!("L{}", rng.below(nsub_l as u64)));
+            }
+            if high_g && rng.chance(1, 4) {
+                t.push(format!("G{}", ng - 1)); // a padding subr at the top of the INDEX
+            }
+            t.push("E".to_string());
+            t.join(".")
+        })
+        .collect();
+    let ids = gen_ids(rng, nglyph);
+    let sh = |v: &[String]| if v.is_empty() { "-".to_string() } else { v.join(" ") };
+    format!("s|{}|{}|{}|{}|{}|{}|{}", ng, nl, sh(&glyphs), sh(&gs), sh(&ls), join(&ids), rng.below(2))
+}
+
 fn run(input: &str) -> String {
     let parts: Vec<&str> = input.split('|').collect();
+    if std::env::var("C07_DEBUG").is_ok() {
+        std::panic::set_hook(Box::new(|info| eprintln!("{}", info)));
+    }
     let r = catch_unwind(AssertUnwindSafe(|| match parts[0] {
         "g" if parts.len() >= 5 => run_g(&parts),
         "h" if parts.len() >= 5 => run_h(&parts),
         "t" if parts.len() >= 6 => run_t(&parts),
         "f" if parts.len() >= 3 => run_f(&parts),
+        "c" if parts.len() >= 4 => run_c(&parts),
+        "s" if parts.len() >= 7 => run_s(&parts),
         _ => "badinput".to_string(),
     }));
     match r {
@@ -926,11 +1326,34 @@ fn gen(rng: &mut Rng) -> String {
                 .collect();
             format!("h|{}|{}|{}|{}|{}", nhm_arg, show_hm(&hm), join(&lsbs), join(&olds), avh::build_mode())
         }
-        65..=89 => {
+        65..=85 => {
             let t = gen_table(rng, true);
             let ids = gen_ids(rng, t.len());
             let (nhm, hm, lsbs) = gen_hm(rng, t.len());
             format!("t|{}|{}|{}|{}|{}|{}", show_table(&t), nhm, show_hm(&hm), join(&lsbs), join(&ids), avh::build_mode())
+        }
+        86..=89 => gen_cff(rng),
+        90..=94 => {
+            let name = *rng.pick(CFF_FONTS);
+            let data = font_bytes(name);
+            let ng = ReadScope::new(&data)
+                .read::<FontData<'_>>()
+                .ok()
+                .and_then(|f| f.table_provider(0).ok())
+                .and_then(|p| p.table_data(tag::MAXP).ok().flatten().and_then(|m| rd16(&m, 4)))
+                .unwrap_or(1) as usize;
+            let mut ids = gen_ids(rng, ng);
+            if rng.chance(1, 6) {
+                // more than 255 glyphs: Type 1 -> CID conversion
+                let mut g = 1u16;
+                while ids.len() < 300 && (g as usize) < ng {
+                    if !ids.contains(&g) {
+                        ids.push(g);
+                    }
+                    g += 1 + rng.below(3) as u16;
+                }
+            }
+            format!("c|{}|{}|{}", name, join(&ids), rng.below(2))
         }
         _ => {
             let mut name = rng.pick(FONTS).to_string();
